@@ -52,7 +52,7 @@ func (sm *stateMachine) Connect(session *session) {
 	}
 
 	if session.RefreshOnLogon {
-		if err := session.store.Refresh(); err != nil {
+		if err := session.refreshStore(); err != nil {
 			abort(err)
 			return
 		}
